@@ -654,6 +654,8 @@ pub fn write_digests(rep: &Report, scenarios: &[Box<dyn Scenario>], out_path: &P
         viols.entry((f.scenario, f.run)).or_default().push(f);
     }
     let mut s = String::new();
+    s.push_str(&json!({"fingerprint": env!("CBSIM_SRC_FINGERPRINT")}).to_string());
+    s.push('\n');
     for (sc, run, d) in &stats.run_digests {
         let v: Vec<Value> = viols
             .get(&(*sc, *run))
@@ -695,8 +697,24 @@ fn second_profile(rep: &Report, scenarios: &[Box<dyn Scenario>], stats: &mut Bat
     let mine: BTreeMap<(&str, u64), (u64, u64)> = stats.run_digests.iter().map(|(s, r, d)| ((*s, *r), *d)).collect();
     let mut compared = 0u64;
     let mut diverged = 0u64;
+    let mut fingerprint_seen = false;
     for line in text.lines() {
         let v: Value = serde_json::from_str(line).map_err(|e| format!("bad digest line: {e}"))?;
+        if let Some(fp) = v["fingerprint"].as_str() {
+            fingerprint_seen = true;
+            if fp != env!("CBSIM_SRC_FINGERPRINT") {
+                return Err(format!(
+                    "the two profile binaries were built from different sources (this process {}, {} {}); rebuild both through ./check — comparing them would say nothing about the code under test",
+                    env!("CBSIM_SRC_FINGERPRINT"),
+                    bin,
+                    fp
+                ));
+            }
+            continue;
+        }
+        if !fingerprint_seen {
+            return Err(format!("{bin} did not report a source fingerprint (stale binary); rebuild both profiles through ./check"));
+        }
         let (Some(sn), Some(run)) = (v["s"].as_str(), v["r"].as_u64()) else { continue };
         let Some(sc) = scenarios.iter().find(|s| s.name() == sn) else { continue };
         let d = (v["d"][0].as_u64().unwrap_or(0), v["d"][1].as_u64().unwrap_or(0));
